@@ -39,7 +39,7 @@ RULE = ("case = tap profile (1..8 taps, delay/Ts in [0,20] (thorough 60): "
         "RNG seeded from the case) x wrapper and antennas (SISO, (Nr,Nt) in "
         "{1..3}^2 with Nr!=Nt forced in half of the MIMO cases) x history of "
         "1..3 transmissions interleaved with switched_direction / path-loss "
-        "changes; frequency domain: fft > channel memory (12%: <=), selection "
+        "changes (None, 1e-6..1, 1e-18..1e-10, exactly 0 and 1); frequency domain: fft > channel memory (12%: <=), selection "
         "None / index list or array (unsorted, optionally repeated) / slice "
         "incl. "
         "negative and non-dividing steps, 1..4 blocks; multi-user: N int or "
